@@ -109,8 +109,16 @@ fn get_delta_header_size(
         }
         let cmd = delta[*index];
         *index += 1;
-        size |= ((cmd & !0x80) as usize) << i;
-        i += 7;
+        let v = (cmd & !0x80) as usize;
+        if v != 0 {
+            // Refuse sizes that do not fit in a usize instead of panicking
+            // (debug builds) or silently wrapping (release builds).
+            if i >= usize::BITS as usize || (v << i) >> i != v {
+                return Err("delta size header too large");
+            }
+            size |= v << i;
+        }
+        i = i.saturating_add(7);
         if cmd & 0x80 == 0 {
             return Ok(size);
         }
@@ -165,7 +173,9 @@ fn apply_delta(py: Python, py_src_buf: Py<PyAny>, py_delta: Py<PyAny>) -> PyResu
 
     let dest_size = get_delta_header_size(delta.as_ref(), &mut index, delta_len)
         .map_err(ApplyDeltaError::new_err)?;
-    let mut out = vec![0; dest_size];
+    // Grow the output as validated data arrives rather than trusting the
+    // declared size, which comes from the (possibly hostile) delta.
+    let mut out: Vec<u8> = Vec::new();
     let mut outindex = 0;
 
     while index < delta_len {
@@ -212,7 +222,7 @@ fn apply_delta(py: Python, py_src_buf: Py<PyAny>, py_delta: Py<PyAny>) -> PyResu
                 break;
             }
 
-            out[outindex..outindex + cp_size].copy_from_slice(&src_buf[cp_off..cp_off + cp_size]);
+            out.extend_from_slice(&src_buf[cp_off..cp_off + cp_size]);
             outindex += cp_size;
         } else if cmd != 0 {
             if (cmd as usize) > dest_size {
@@ -220,15 +230,14 @@ fn apply_delta(py: Python, py_src_buf: Py<PyAny>, py_delta: Py<PyAny>) -> PyResu
             }
 
             // Raise ApplyDeltaError if there are more bytes to copy than space
-            if outindex + cmd as usize > dest_size {
+            if cmd as usize > dest_size - outindex {
                 return Err(ApplyDeltaError::new_err("Not enough space to copy"));
             }
-            if index + cmd as usize > delta_len {
+            if cmd as usize > delta_len - index {
                 return Err(ApplyDeltaError::new_err("delta not empty"));
             }
 
-            out[outindex..outindex + cmd as usize]
-                .copy_from_slice(&delta[index..index + cmd as usize]);
+            out.extend_from_slice(&delta[index..index + cmd as usize]);
             outindex += cmd as usize;
             index += cmd as usize;
         } else {
